@@ -46,6 +46,8 @@ type Runner struct {
 	etxEmitted     map[int]etxRec
 	IndexChecks    int
 	DomCanonChecks int
+	convSeen          map[string][]string
+	SiblingConvChecks int
 	craftExtra     []*types.Transaction
 	craftNeeds     common.Hash
 	crafted        bool
@@ -906,8 +908,33 @@ func (r *Runner) etxEvent(ev map[string]interface{}, zb *types.WorkObject) {
 		exec = append(exec, check(e))
 	}
 	inbound := []int{}
+	convVals := []string{}
 	for _, e := range rawdb.ReadInboundEtxs(r.E.Net.DBs[mininet.Zone], zb.Hash()) {
-		inbound = append(inbound, check(e))
+		id := check(e)
+		inbound = append(inbound, id)
+		if t := e.EtxType(); t == uint64(types.ConversionType) || t == uint64(types.ConversionRevertType) {
+			convVals = append(convVals, fmt.Sprintf("%d:%d:%s", id, e.EtxType(), e.Value().String()))
+		}
+	}
+	// Repricing of conversions is a function of the prime parent and of the set confirmed: two prime blocks on the SAME parent that
+	// confirm the SAME set must hand down identical values (the dominant chain reprices a COPY of what its rollup caches hold - a
+	// second pass over the same cached rollup must start from the original amounts again)
+	if len(convVals) > 0 {
+		if pi, ok := r.byHash[zb.ParentHash(common.ZONE_CTX)]; ok {
+			key := fmt.Sprintf("%x|%v", r.Blocks[pi].PHash.Bytes(), inbound)
+			if r.convSeen == nil {
+				r.convSeen = map[string][]string{}
+			}
+			if prev, seen := r.convSeen[key]; seen {
+				r.SiblingConvChecks++
+				if fmt.Sprint(prev) != fmt.Sprint(convVals) {
+					r.Problems = append(r.Problems, Problem{"conversion-repriced-differently-by-sibling-prime-block", map[string]interface{}{"block": len(r.Blocks) - 1,
+						"first": prev, "second": convVals}})
+				}
+			} else {
+				r.convSeen[key] = convVals
+			}
+		}
 	}
 	queue := []int{}
 	queueOK := true
